@@ -545,24 +545,57 @@ def oracle_history(impl, wd, hist, names):
     return fails, s
 
 
-def shrink_history(impl, wd, hist, names):
-    """drop reads and everything after the first failing call; then try to drop single steps"""
-    fails, s = oracle_history(impl, wd, hist, names)
+ORACLE_SCRIPT = r"""
+import json, sys
+sys.path.insert(0, sys.argv[1])
+import common
+common.use_repo_source()
+from props import c19, c19_session
+h = json.load(open(sys.argv[2]))
+impl = c19.Impl()
+with c19.Workdir() as wd:
+    try:
+        fails, s = c19_session.oracle_history(impl, wd, h, h.get("class_names") or c19_session.class_names())
+        out = {"fails": fails, "steps": s.steps, "texts": s.texts}
+    except Exception as e:
+        out = {"fails": [], "error": repr(e)}
+json.dump(out, open(sys.argv[3], "w"))
+"""
+
+
+def oracle_fresh(wd, hist):
+    """the property oracle on a history, executed in a NEW process (what a replay does): the process in which the
+    check ran its histories may carry state left behind by earlier histories"""
+    n = len(os.listdir(wd.dir))
+    req, outp = os.path.join(wd.dir, f"orc-req-{n}.json"), os.path.join(wd.dir, f"orc-out-{n}.json")
+    json.dump(hist, open(req, "w"))
+    env = dict(os.environ, PYTHONPATH=os.path.join(common.REPO, "src"), PYTHONHASHSEED="0")
+    harness_dir = os.path.dirname(os.path.dirname(os.path.abspath(__file__)))
+    p = subprocess.run([common.PY, "-c", ORACLE_SCRIPT, harness_dir, req, outp], env=env, capture_output=True, text=True, timeout=600)
+    if p.returncode != 0:
+        return {"fails": [], "error": (p.stderr or p.stdout)[-500:]}
+    return json.load(open(outp))
+
+
+def shrink_history(wd, hist):
+    """(in fresh processes) drop reads and everything after the first failing call; then try to drop single steps"""
+    r = oracle_fresh(wd, hist)
+    fails = r.get("fails") or []
     if not fails:
         return hist, fails
     k = int(re.match(r"step (\d+)", fails[0]).group(1))
-    steps = [st for st in s.steps[:k] if st["op"] != "read"]
-    best = {"name": hist["name"], "files": dict(s.texts), "steps": steps, "seed": hist.get("seed", 0)}
-    bf, _ = oracle_history(impl, wd, best, names)
+    full = {"name": hist["name"], "files": r["texts"], "steps": r["steps"], "seed": hist.get("seed", 0)}
+    if hist.get("class_names"):
+        full["class_names"] = hist["class_names"]
+    best = dict(full, steps=[st for st in r["steps"][:k] if st["op"] != "read"])
+    bf = oracle_fresh(wd, best).get("fails") or []
     if not bf:
-        return {"name": hist["name"], "files": dict(s.texts), "steps": s.steps, "seed": hist.get("seed", 0)}, fails
-    i = 0
-    while i < len(best["steps"]) - 1 and len(best["steps"]) > 2:
+        return full, fails
+    i, tries = 0, 0
+    while i < len(best["steps"]) - 1 and len(best["steps"]) > 2 and tries < 14:
+        tries += 1
         cand = dict(best, steps=best["steps"][:i] + best["steps"][i + 1:])
-        try:
-            cf, _ = oracle_history(impl, wd, cand, names)
-        except Exception:  # noqa: BLE001  (an index no longer exists)
-            cf = []
+        cf = oracle_fresh(wd, cand).get("fails") or []
         if cf:
             best, bf = cand, cf
         else:
@@ -674,8 +707,8 @@ def search(chk, impl, wd, bad, sessions):
             continue
         done.add(id(h))
         try:
-            small, fails = shrink_history(impl, wd, h, names)
-        except Exception as e:  # noqa: BLE001
+            small, fails = shrink_history(wd, h)
+        except Exception:  # noqa: BLE001
             continue
         if not fails:
             continue
@@ -691,13 +724,53 @@ def search(chk, impl, wd, bad, sessions):
     return found
 
 
+def search_without_model(chk, wd, limit=3, budget_s=240):
+    """no compiled model (a proof or the table generator broke): the generated histories go straight to the property
+    oracle, each in a fresh process, within a time budget"""
+    import time
+    names = class_names() if os.path.exists(os.path.join(COQ, "gen", "Gen_tables_params.v")) else []
+    if not names or names[0] != "DefaultParams":
+        import pydrex.mock as mock
+        import pydrex.core as core
+        names = ["DefaultParams"] + sorted(n for n, c in inspect.getmembers(mock, inspect.isclass)
+                                           if issubclass(c, core.DefaultParams) and c is not core.DefaultParams)
+    t0, found, seen = time.time(), [], set()
+    hists = gen_histories(chk, "quick", len(names))
+    # one of each kind first
+    seen_kind, keyed = {}, []
+    for k, h in enumerate(hists):                      # one of each kind first
+        kind = h["name"].split(":")[0]
+        keyed.append((seen_kind.get(kind, 0), k, h))
+        seen_kind[kind] = seen_kind.get(kind, 0) + 1
+    hists = [h for _, _, h in sorted(keyed, key=lambda t: (t[0], t[1]))]
+    for h in hists:
+        if time.time() - t0 > budget_s or len(found) >= limit:
+            break
+        h = dict(h, class_names=names)
+        try:
+            small, fails = shrink_history(wd, h)
+        except Exception:  # noqa: BLE001
+            continue
+        if not fails:
+            continue
+        sig = re.sub(r"step \d+", "step", fails[0])[:70]
+        if sig in seen:
+            continue
+        seen.add(sig)
+        found.append({"kind": "property-violation", "call": "call history on pydrex.io.parse_config / DefaultParams.as_dict / pydrex.mock presets",
+                      "input": {"history": small["steps"], "files": small["files"], "seed": small.get("seed", 0), "name": small["name"],
+                                "class_names": names},
+                      "observed": fails[:4]})
+    return found
+
+
 def replay(d):
     b = B()
     impl = b.Impl()
     inp = d["input"]
     with b.Workdir() as wd:
         fails, _ = oracle_history(impl, wd, {"name": inp.get("name", "replay"), "files": inp["files"], "steps": inp["history"],
-                                             "seed": inp.get("seed", 0)}, class_names())
+                                             "seed": inp.get("seed", 0)}, inp.get("class_names") or class_names())
     for f in fails:
         print("still fails:", f)
     return 1 if fails else 0
